@@ -451,7 +451,8 @@ PROPS = {
         B("c08", 150, 900)],   # the same writes with reads cut anywhere, also inside characters
         "extra": [uniseg_engine]},
     "C04": {"tags": [2, 3, 7], "ppref": ("C04",), "batches": [
-        B("c04", 800, 4800, step=True, kinds_wanted=[2, 3])]},
+        B("c04", 800, 4800, step=True, kinds_wanted=[2, 3]),
+        B("c18", 150, 900, step=True, kinds_wanted=[3])]},   # save far away / Resize / restore: the saved position must come back inside the screen
     "C05": {"tags": SCREEN, "ppref": ("C05",), "batches": [
         B("c05", 800, 4800, step=True, kinds_wanted=[4]),
         # grapheme mode: erases over cells that hold clusters and late merges (marks merged into blanks and characters)
